@@ -14,14 +14,15 @@
 (*   callback, free of the memory (target -1) or of the block (target -2). *)
 (* pc[t] is a tuple: <<"rh", x, c>> = about to decrement hard while        *)
 (* resetting object x, then continue at c; see Event/Step below.           *)
-(* A thread's program is one operation followed by the clean-up            *)
+(* A thread's program is PLen operations followed by the clean-up          *)
 (* <<reset1, reset2, wreset>> so that every pointer is reset at the end.   *)
 (***************************************************************************)
 EXTENDS Naturals, Integers, Sequences, FiniteSets, TLC
 CONSTANTS NT,           \* number of threads
           Roles,        \* initial configuration of a thread: "owner" (s1), "weak" (w), "both", "none"
           Ops,          \* the operation under test of each thread
-          HasClr        \* the allocation has a clear callback
+          HasClr,       \* the allocation has a clear callback
+          PLen          \* operations per thread before the clean-up (1 or 2)
 Threads == 1..NT
 VARIABLES hard, soft, lock, mem, data, clrs, bad,
           role, prog, ip, pc, old, s1, s2, w, got
@@ -62,13 +63,16 @@ ResolveIp(lbl, pr, i, f1, f2, fw) ==
     ELSE i
 
 CleanUp == <<"reset1", "reset2", "wreset">>
+\* a thread's program: PLen operations (the second one meets whatever the first one left in s2 / w:
+\* an occupied target is let go first, inside the same public call), then the clean-up
+Progs == IF PLen = 1 THEN {<<a>> : a \in Ops} ELSE {<<a, b>> : a \in Ops, b \in Ops}
 F1(r) == r \in {"owner", "both"}
 FW(r) == r \in {"weak", "both"}
 Card(S) == Cardinality(S)
 Init ==
     /\ role \in [Threads -> Roles]
     /\ \E t \in Threads : role[t] # "none"                 \* somebody references the allocation
-    /\ prog \in {[t \in Threads |-> <<o[t]>> \o CleanUp] : o \in [Threads -> Ops]}
+    /\ prog \in {[t \in Threads |-> o[t] \o CleanUp] : o \in [Threads -> Progs]}
     /\ s1 = [t \in Threads |-> F1(role[t])] /\ s2 = [t \in Threads |-> FALSE] /\ w = [t \in Threads |-> FW(role[t])]
     /\ hard = Card({t \in Threads : F1(role[t])})
     /\ soft = Card({t \in Threads : F1(role[t])}) + Card({t \in Threads : FW(role[t])})
